@@ -285,6 +285,9 @@ class ScriptedRunner(SimulationRunner):
         except Exception as e:       # noqa: BLE001
             ids = "unreadable: %s" % type(e).__name__
         self.w.hook_log.append(("finish", max(0, current_params.unpack_index), self.w.drop_mut(canon_params(current_params.parameters)), ids))
+        # the user program keeps the result set it was handed for this combination (e.g. to plot it later)
+        if isinstance(ids, list):
+            self.w.kept_sets.append((max(0, current_params.unpack_index), res, list(ids)))
         self.w.seams.seam("cb:params_finish")
 
 
@@ -328,6 +331,7 @@ class World:
         self.exec_ok = {}
         self.trace = []
         self.hook_log = []
+        self.kept_sets = []
         self.var_elapsed = {}
         self.faults = {}
         self.probes = {}
@@ -575,6 +579,7 @@ class World:
         self.inc_calls = 0
         self.trace = []
         self.hook_log = []
+        self.kept_sets = []
         self.var_elapsed = {}
         self.succ_in_v = {}
         self.loaded_in_v = {}
@@ -978,6 +983,16 @@ def _check_completed(w, pid, res, k, inc, cfg, pname, pred, final_name, parts, s
         add_violation(res, pid + ".hooks", k, "per-variation hook call #%d was %s, expected %s" % (
             j, w.hook_log[j] if j < len(w.hook_log) else None, want_hooks[j] if j < len(want_hooks) else None), sig_f)
         return
+    for (v_, set_, ids_) in w.kept_sets:
+        try:
+            now_lists = {nm: len(set_[nm]) for nm in ("ids", "cnt", "err")}
+            now_ids = [int(i) for i in set_["ids"][-1]._value_list]
+        except Exception as ex_:       # noqa: BLE001
+            now_lists, now_ids = {"unreadable": type(ex_).__name__}, None
+        if any(n_ != 1 for n_ in now_lists.values()) or now_ids != ids_:
+            add_violation(res, pid + ".hooks", k, "the result set handed to the finish hook for variation %d changed after the hook returned: it now holds %s result(s) per name, ids %s (was 1 per name, ids %s)" % (
+                v_, now_lists, now_ids, ids_), dict(sig_f, result="kept_set"))
+            return
     exp_reps = [per_v[v]["rep"] for v in pred["idxs"]]
     if list(r.runned_reps) != exp_reps:
         add_violation(res, pid + ".counts", k, "runned_reps=%r but the executed successful repetitions per variation are %r" % (
